@@ -241,6 +241,16 @@ def run(ctx):
             else:
                 r.fail(rt, c0.ast, "ignore filter", "frames under the ignored path are dropped even at debug verbosity")
 
+    # 'under an ignored path' is a statement about the frame's file name as the frame reports it: the pattern is matched against <frame>.filename itself
+    for c in q.calls(rt):
+        if isinstance(c.func, ast.Attribute) and isinstance(c.func.value, ast.Name) and c.func.value.id == "re" and c.args and any(isinstance(x, ast.Attribute) and x.attr == "_ignore" for x in walk_no_nested(c.args[0])):
+            subj = c.args[1] if len(c.args) > 1 else None
+            if isinstance(subj, ast.Attribute) and subj.attr == "filename":
+                r.ok("%s: ignore pattern matched against %s" % (rt.short, norm(subj)))
+            else:
+                r.fail(rt, c, norm(c), "the ignore pattern is matched against `%s`, a transformed file name, not the one the frame reports: frames reached through a symlinked directory, with a relative "
+                       "or a pseudo file name are no longer recognised as ignored and leak into the listing" % (norm(subj) if subj is not None else "?"))
+
     # ---------------------------------------------------------------- R3
     r = ctx.rule("C20-R3", "SIBLING", "the marker test and the printed line number use the same index expression; "
                  "numbering starts at 1 and follows enumeration order", reference=3)
@@ -354,7 +364,13 @@ def run(ctx):
             g = guarded_by(cfg, n, lambda e: isinstance(e, ast.Name) and e.id == "simple", polarity=True)
             if g is not None:
                 simple_ok = True
-    if simple_ok:
+    # ... its text, i.e. str(exception) - not a component picked out of it
+    picked = [n for n in cfg.nodes if n.kind == "stmt" and n.ast is not None and any(isinstance(x, ast.Attribute) and x.attr in ("args", "message") and isinstance(x.value, ast.Attribute) and x.value.attr == "_exception" for x in walk_no_nested(n.ast))
+              and guarded_by(cfg, n, lambda e: isinstance(e, ast.Name) and e.id == "simple", polarity=True) is not None]
+    if picked:
+        r.fail(render, picked[0].ast, norm(picked[0].ast)[:70], "in simple mode the report prints a component of the exception (%s) instead of str(exception): exceptions with a custom __str__, several "
+               "arguments or none show the wrong text, or render raises IndexError" % norm(picked[0].ast)[:60])
+    elif simple_ok:
         r.ok("%s: simple mode writes the exception text" % render.short)
     else:
         r.fail(render, render.node, "simple mode write", "in simple mode the message of the exception is not written")
@@ -475,6 +491,42 @@ def run(ctx):
                 r.ok("%s: %s" % (m.short, norm(c)))
     if r.n == 0:
         r.vacuous_ok = True
+
+    # ---------------------------------------------------------------- R11
+    r = ctx.rule("C20-R11", "RANGE", "the one-line form of a frame takes element [0] of the highlighter's answer: a method whose result is subscripted with a constant returns no empty "
+                 "literal (a frame without source - exec'd code - has an empty line, not no line)", reference=1)
+    n11 = 0
+    for m in sorted(et.methods.values(), key=lambda f: f.name):
+        for sub in [n for n in walk_no_nested(m.node) if isinstance(n, ast.Subscript) and isinstance(n.slice, ast.Constant) and isinstance(n.slice.value, int) and isinstance(n.value, ast.Call)]:
+            cs = ctx.cg.site_for(m, sub.value)
+            tg = [t for t in cs.targets if t.cls is hl_cls]
+            if not tg:
+                continue
+            n11 += 1
+            empt = [(t, ret) for t in tg for ret in q.returns(t) if isinstance(ret.value, (ast.List, ast.Tuple)) and not ret.value.elts]
+            if empt:
+                t, ret = empt[0]
+                r.fail(t, ret, "%s returns [] but is subscripted [%d]" % (t.name, sub.slice.value), "%s can return an empty list while %s takes element [%d] of its result: a frame without source text makes "
+                       "rendering the trace raise IndexError" % (t.short, m.short, sub.slice.value))
+            else:
+                r.ok("%s: %s never answers with an empty literal" % (m.short, ", ".join(t.short for t in tg)))
+    if n11 == 0:
+        r.vacuous_ok = True
+
+    # ---------------------------------------------------------------- R12
+    r = ctx.rule("C20-R12", "TAINT", "'contains its message text ... every source line verbatim': between the text and the write nothing lossy is applied - no encode with an error handler "
+                 "that replaces or drops characters in the trace renderer", reference=1)
+    lossy = []
+    for m in list(et.methods.values()) + list(hl_cls.methods.values()):
+        for c in q.calls(m):
+            if isinstance(c.func, ast.Attribute) and c.func.attr in ("encode", "decode"):
+                errs = [a for a in list(c.args[1:]) + [k.value for k in c.keywords if k.arg == "errors"] if isinstance(a, ast.Constant) and a.value in ("replace", "ignore", "xmlcharrefreplace", "backslashreplace", "namereplace")]
+                if errs:
+                    lossy.append((m, c))
+    for m, c in lossy:
+        r.fail(m, c, norm(c)[:70], "%s squeezes text through `%s`: on that path characters of the message and of the source lines are replaced, so the report no longer contains the message text" % (m.short, norm(c)[:60]))
+    if not lossy:
+        r.ok("no lossy re-encoding in ExceptionTrace / Highlighter")
     return ctx.results
 
 
